@@ -38,6 +38,9 @@ pub struct Run {
     pub post: Vec<(String, String)>,
     /// run the binary as this user (the scratch tree is handed over to it first); None = the harness's own user
     pub uid: Option<u32>,
+    /// earlier invocations of the binary in the same tree (same working directory and environment), executed before the
+    /// "before" snapshot is taken: the observed run then starts from a state the program itself produced
+    pub pre: Vec<Vec<String>>,
 }
 
 pub type Snapshot = BTreeMap<String, (Vec<u8>, i128, u64, u32)>;
@@ -170,6 +173,45 @@ pub fn execute(id: usize, tree: &Tree, run: &Run) -> Outcome {
             }
             _ => {}
         }
+    }
+    for pre in &run.pre {
+        let argv: Vec<String> = pre.iter().map(|a| a.replace("$ROOT", &root.to_string_lossy())).collect();
+        let mut c = Command::new(BIN);
+        c.args(&argv)
+            .current_dir(root.join(&run.cwd))
+            .env_clear()
+            .env("PATH", "/usr/bin:/bin")
+            .env("HOME", root.join("_home"))
+            .env("XDG_CONFIG_HOME", root.join("_xdg"))
+            .env("NO_COLOR", "1")
+            .stdin(Stdio::null())
+            .stdout(Stdio::null())
+            .stderr(Stdio::null());
+        for (k, v) in &run.env {
+            c.env(k, v.replace("$ROOT", &root.to_string_lossy()));
+        }
+        if let Some(u) = run.uid {
+            use std::os::unix::process::CommandExt;
+            c.uid(u).gid(u);
+        }
+        if let Ok(mut ch) = c.spawn() {
+            let t0 = std::time::Instant::now();
+            loop {
+                match ch.try_wait() {
+                    Ok(Some(_)) | Err(_) => break,
+                    Ok(None) => {
+                        if t0.elapsed() > std::time::Duration::from_secs(60) {
+                            let _ = ch.kill();
+                            let _ = ch.wait();
+                            break;
+                        }
+                        std::thread::sleep(std::time::Duration::from_micros(300));
+                    }
+                }
+            }
+        }
+        // make a rewrite by the observed run visible in the time stamp
+        std::thread::sleep(std::time::Duration::from_millis(2));
     }
     let before = snapshot(&root);
     let mut cmd = Command::new(BIN);
@@ -783,6 +825,21 @@ pub fn c13(thorough: bool, stats: &mut Stats) -> Vec<Failure> {
             }
         }
     }
+    // histories: `stylua <files>` (write mode), then --check on the tree the program itself produced: everything that could be
+    // formatted is now formatted, so only the failing kinds still count
+    for ks in multisets(&[Kind::Unformatted, Kind::Formatted, Kind::Crlf, Kind::NoEol, Kind::Unparseable], if thorough { 3 } else { 2 }, false) {
+        for fmt in ["Standard", "Unified", "Json", "Summary"] {
+            let paths = layout_paths(&ks, "flat");
+            let mut t = Tree::default();
+            for (i, k) in ks.iter().enumerate() {
+                t.add(&paths[i], &k.bytes(i));
+            }
+            let mut argv: Vec<String> = vec!["--check".into(), "--color".into(), "Never".into(), "--output-format".into(), fmt.into()];
+            argv.extend(paths.clone());
+            let desc = format!("C13 kinds={} layout=flat rot=0 format={} verify=false threads=default history=write-then-check", ks.iter().map(|k| k.letter()).collect::<String>(), fmt);
+            scs.push(Scenario { desc, tree: t, run: Run { argv, pre: vec![paths.clone()], ..Run::default() } });
+        }
+    }
     run_all(scs, "E2-C13", stats, |s, o| {
         let mut f = vec![];
         // recover the scenario from the description
@@ -793,7 +850,8 @@ pub fn c13(thorough: bool, stats: &mut Stats) -> Vec<Failure> {
             f.push(("check-wrote".into(), format!("--check modified / created / touched {:?}", changed)));
         }
         let any_fail = kinds.iter().any(|k| matches!(k, 'P' | 'I' | 'M' | 'D'));
-        let n_unf = kinds.iter().filter(|k| matches!(**k, 'U' | 'L' | 'N')).count();
+        let after_write = s.desc.ends_with("history=write-then-check");
+        let n_unf = if after_write { 0 } else { kinds.iter().filter(|k| matches!(**k, 'U' | 'L' | 'N')).count() };
         let want = if any_fail { 2 } else if n_unf > 0 { 1 } else { 0 };
         if o.code != want {
             f.push(("exit-status".into(), format!("exit status {} but expected {} ({} failing, {} differing)", o.code, want, kinds.iter().filter(|k| matches!(k, 'P' | 'I' | 'M' | 'D')).count(), n_unf)));
@@ -928,9 +986,40 @@ pub fn c14(thorough: bool, stats: &mut Stats) -> Vec<Failure> {
             }
         }
     }
+    // histories: the same write-mode invocation twice; the second run finds every healthy file formatted and must not rewrite it
+    for ks in multisets(&[Kind::Unformatted, Kind::Formatted, Kind::Unparseable], if thorough { 3 } else { 2 }, true) {
+        for layout in ["flat", "dir"] {
+            let paths = layout_paths(&ks, layout);
+            let mut t = Tree::default();
+            for (i, k) in ks.iter().enumerate() {
+                t.add(&paths[i], &k.bytes(i));
+            }
+            let mut argv: Vec<String> = vec!["--color".into(), "Never".into()];
+            if layout == "flat" {
+                argv.extend(paths.clone());
+            } else {
+                argv.push(".".into());
+            }
+            let desc = format!("C14 kinds={} layout={} verify=false threads=default format=Standard user=self history=write-twice", ks.iter().map(|k| k.letter()).collect::<String>(), layout);
+            scs.push(Scenario { desc, tree: t, run: Run { argv: argv.clone(), pre: vec![argv], ..Run::default() } });
+        }
+    }
     run_all(scs, "E2-C14", stats, |s, o| {
         let mut f = vec![];
         let kinds: Vec<char> = s.desc.split("kinds=").nth(1).unwrap().split(' ').next().unwrap().chars().collect();
+        if s.desc.ends_with("history=write-twice") {
+            // the observed run is the SECOND one: nothing may change any more, and the status still reports the failing files
+            let want = if kinds.iter().any(|k| !matches!(k, 'U' | 'F')) { 2 } else { 0 };
+            if o.code != want {
+                f.push(("exit-status".into(), format!("second run: exit status {} but expected {}", o.code, want)));
+            }
+            for (p, v) in &o.after {
+                if o.before.get(p) != Some(v) {
+                    f.push(("formatted-file-rewritten".into(), format!("second run: {} was written again (bytes / mtime / inode changed) although the first run had formatted it", p)));
+                }
+            }
+            return f;
+        }
         let any_fail = kinds.iter().any(|k| !matches!(k, 'U' | 'F'));
         let want = if any_fail { 2 } else { 0 };
         if o.code != want {
